@@ -5,6 +5,9 @@ import Qwt.Props.C06
 import Qwt.Props.C07
 import Qwt.Props.C17
 import Qwt.Props.C02Craft
+import Qwt.Props.C02
+import Qwt.Props.C09
+import Qwt.Props.C09Huff
 import Qwt.Proofs.DArrayBridge
 import Qwt.Proofs.RSQBridge
 
@@ -206,5 +209,51 @@ theorem hwt_select (sym k : Nat) : BinWT.select c true t sym k =
   exact C03.hwt_select_ok c hW binLevelLaw S hne hb hS lens codes hc _ hv hocc ht sym k
 
 end hwt
+
+/-! ## C02: the Huffman-shaped quad tree (all four aliases: both block sizes, with and
+without prefetch support), for every admissible length table and every tie order -/
+
+theorem hqwt_correct (c : Cfg) (hB : c.B = 256 ∨ c.B = 512) (hW : c.W ≤ 64)
+    (S : List Nat) (hne : S ≠ []) (hb : ∀ x ∈ S, x < 2 ^ c.W) (hS : S.length < 2 ^ 43)
+    (lens : List (Nat × Nat)) (hlens : C02.LensOK 4 lens)
+    (hsyms : ∀ s, s ∈ lens.map (·.1) ↔ s ∈ S) :
+    ∃ codes t, Huff.craftWmCodes 4 lens (Utils.asUsize (Spec.maxNat S)) = .ok codes ∧
+      C02.WMValid 4 codes (lens.map (·.1)) ∧
+      Huff.new c S.toArray lens = .ok t ∧
+      (∀ i, Huff.get c t i = .ok S[i]?) ∧
+      (∀ sym i, Huff.rank c t sym i =
+        .ok (if sym ∈ S ∧ i ≤ S.length then some (Spec.rank sym i S) else none)) ∧
+      (∀ sym k, Huff.select c t sym k = .ok (if sym ∈ S then Spec.select sym k S else none)) ∧
+      (∀ p ∈ lens, codes[p.1]!.len = 2 * p.2) ∧
+      2 * t.lens.toList.sum = (S.map (fun x => codes[x]!.len)).sum := by
+  obtain ⟨codes, t, h1, h2, h3, _, h5, h6, h7, h8, h9⟩ :=
+    C02.hqwt_correct c hW (levelLaw c.dbg hB) (Qwt.HQWM.pfsTotalH c) S hne hb hS lens hlens hsyms
+  exact ⟨codes, t, h1, h2, h3, h5, h6, h7, h8, h9⟩
+
+/-! ## C01 / C09: the plain quad tree on all four aliases (with and without prefetch support) -/
+
+section qwt_all
+variable {c : Cfg} {S : List Nat} {t : QWTree.QWT}
+  (hB : c.B = 256 ∨ c.B = 512) (hW : 0 < c.W)
+  (hS : ∀ x ∈ S, x < 2 ^ c.W) (hlen : S.length < 2 ^ 43)
+  (hnew : QWTree.new c S.toArray = .ok t)
+include hB hW hS hlen hnew
+
+theorem qwt_get_all (i : Nat) : QWTree.get c t i = .ok S[i]? :=
+  C09.get_ok hB hW hS hlen hnew i
+
+theorem qwt_rank_all (sym i : Nat) : QWTree.rank c t sym i =
+    .ok (if S ≠ [] ∧ sym ≤ Spec.maxNat S ∧ i ≤ S.length then some (Spec.rank sym i S) else none) :=
+  C09.rank_ok hB hW hS hlen hnew sym i
+
+theorem qwt_select_all (sym k : Nat) : QWTree.select c t sym k =
+    .ok (if S ≠ [] ∧ sym ≤ Spec.maxNat S then Spec.select sym k S else none) :=
+  C09.select_ok hB hW hS hlen hnew sym k
+
+theorem qwt_rankPrefetch_all (sym i : Nat) :
+    QWTree.rankPrefetch c t sym i = QWTree.rank c t sym i :=
+  C09.rankPrefetch_eq_rank hB hW hS hlen hnew sym i
+
+end qwt_all
 
 end Qwt.Props.Closed
